@@ -1,1 +1,52 @@
-//! in-daemon verification module (bmp_verif): child of the daemon module, sees its private items.
+//! in-daemon verification module (bmp_verif): child of the daemon's `bmp` module, sees its private items.
+use super::*;
+
+pub(crate) fn adj_rib_in_update(change: &AdjRibInChange) -> bgp::Message {
+    adj_rib_in_to_bmp_update(change)
+}
+pub(crate) fn adj_rib_out_update(change: &AdjRibOutChange) -> bgp::Message {
+    adj_rib_out_to_bmp_update(change)
+}
+pub(crate) fn loc_rib(change: &LocRibChange, router_id: Ipv4Addr, local_asn: u32) -> bmp::Message {
+    loc_rib_to_bmp(change, router_id, local_asn)
+}
+pub(crate) fn loc_rib_up(router_id: Ipv4Addr, local_asn: u32) -> bmp::Message {
+    loc_rib_peer_up(router_id, local_asn)
+}
+
+/// the daemon's snapshot map: apply changes, then flush one peer
+pub(crate) struct Snapshot(SnapshotMap);
+impl Snapshot {
+    pub(crate) fn new() -> Self {
+        Snapshot(FnvHashMap::default())
+    }
+    pub(crate) fn apply(&mut self, change: AdjRibInChange) {
+        apply_snapshot(&mut self.0, change)
+    }
+    pub(crate) fn flush(&mut self, addr: IpAddr, header: &bmp::PerPeerHeader, flags: u8) -> Vec<bmp::Message> {
+        flush_peer_snapshot(&mut self.0, addr, header, flags)
+    }
+    pub(crate) fn len(&self) -> usize {
+        self.0.values().map(|m| m.len()).sum()
+    }
+}
+
+/// peer-up / peer-down pairing as the serve loop applies it
+pub(crate) struct Pairing(FnvHashSet<IpAddr>);
+impl Pairing {
+    pub(crate) fn new() -> Self {
+        Pairing(FnvHashSet::default())
+    }
+    pub(crate) fn up(&mut self, addr: IpAddr) {
+        track_peer_up(&mut self.0, addr)
+    }
+    /// true = the peer-down is forwarded
+    pub(crate) fn down(&mut self, addr: IpAddr) -> bool {
+        track_peer_down(&mut self.0, addr)
+    }
+}
+
+/// Run the real BMP client loop on an established TCP stream.
+pub(crate) fn spawn_serve(stream: TcpStream, cancel: CancellationToken, global: GlobalHandle, tables: TableHandle, policy: BmpPolicy) -> tokio::task::JoinHandle<()> {
+    tokio::spawn(async move { BmpClient::serve(stream, cancel, global, tables, policy).await })
+}
